@@ -1,17 +1,20 @@
 """Hypothesis driver used inside a shard.
 
-`drive(strategy, check, acc, ...)`: `check(case)` evaluates one case and returns a list of
-raw violations `(clause, features, observed, expected)`.  Violations covered by a listed
-finding are counted and the search continues; the first unlisted one is shrunk by Hypothesis
-and recorded (one per drive call; callers shard by sub-domain so several root causes can
-surface in one run).
+`drive(strategy, check, acc, ...)`: `check(case)` evaluates one case and returns a list of raw violations
+`(clause, features, observed, expected)`.
+
+Hypothesis stops at the first failure, which would hide every root cause behind the shallowest one.  So:
+  * violations covered by a listed finding (known_findings.json) are counted and the search continues;
+  * an unlisted violation is shrunk and recorded, its bucket (clause, features) is then *ignored* and the search
+    is restarted with the remaining example budget (up to `max_rounds` buckets per drive call).
 """
 import time
-from typing import Any, Callable, List, Optional
+from typing import Any, Callable, List, Optional, Set, Tuple
 
 import hypothesis
 from hypothesis import HealthCheck, Phase, given, settings
 
+from . import jsonio
 from .runner import Acc
 
 
@@ -21,9 +24,26 @@ class _Fail(Exception):
 
 def drive(strategy: Any, check: Callable[[Any], List[Any]], acc: Acc, *, max_examples: int,
           seed: int, budget_s: Optional[float] = None, shrink: bool = True,
-          to_case: Callable[[Any], Any] = lambda c: c) -> None:
+          to_case: Callable[[Any], Any] = lambda c: c, max_rounds: int = 6) -> None:
     t_end = None if budget_s is None else time.time() + budget_s
-    state = {'fail': None, 'shrinking': False}
+    ignore: Set[Tuple[str, str]] = set()
+    remaining = max_examples
+    for rnd in range(max_rounds):
+        used, found = _round(strategy, check, acc, remaining, seed + 7919 * rnd, t_end, shrink, to_case, ignore)
+        if found is None:
+            break
+        ignore.add(found)
+        remaining = max(remaining - used, max_examples // 4, 20)
+
+
+def _bucket(clause: str, features: Any) -> Tuple[str, str]:
+    return (clause, jsonio.dumps(features))
+
+
+def _round(strategy: Any, check: Callable[[Any], List[Any]], acc: Acc, max_examples: int, seed: int,
+           t_end: Optional[float], shrink: bool, to_case: Callable[[Any], Any],
+           ignore: Set[Tuple[str, str]]) -> Tuple[int, Optional[Tuple[str, str]]]:
+    state = {'fail': None, 'shrinking': False, 'n': 0}
     phases = [Phase.generate, Phase.target] + ([Phase.shrink] if shrink else [])
 
     @hypothesis.seed(seed)
@@ -35,14 +55,21 @@ def drive(strategy: Any, check: Callable[[Any], List[Any]], acc: Acc, *, max_exa
         if t_end is not None and not state['shrinking'] and time.time() > t_end:
             acc.budget_hit = True
             return
+        if not state['shrinking']:
+            state['n'] += 1
         vs = check(case)
         bad = None
         for v in vs:
             clause, features, observed, expected = v
-            if acc.classify(clause, features) is None:
-                bad = v
-                break
-            acc.excluded[acc.classify(clause, features)] += 1
+            fid = acc.classify(clause, features)
+            if fid is not None:
+                acc.excluded[fid] += 1
+                continue
+            if _bucket(clause, features) in ignore:
+                acc.labels['repeat-of-violation-already-recorded-this-run'] += 1
+                continue
+            bad = v
+            break
         if bad is not None:
             state['fail'] = (to_case(case), bad)
             state['shrinking'] = True
@@ -51,13 +78,13 @@ def drive(strategy: Any, check: Callable[[Any], List[Any]], acc: Acc, *, max_exa
     try:
         t()
     except _Fail:
-        case, (clause, features, observed, expected) = state['fail']
-        acc.fail(case, clause, features, observed, expected)
-    except hypothesis.errors.Flaky as e:     # a nondeterministic harness is a harness error
-        if state['fail'] is not None:
-            case, (clause, features, observed, expected) = state['fail']
-            features = dict(features)
-            acc.notes.append('flaky under shrinking: %r' % (e,))
-            acc.fail(case, clause, features, observed, expected)
-        else:
+        pass
+    except hypothesis.errors.Flaky as e:     # a nondeterministic run: keep what was seen, flag it
+        acc.notes.append('flaky under shrinking: %r' % (e,))
+        if state['fail'] is None:
             raise
+    if state['fail'] is None:
+        return state['n'], None
+    case, (clause, features, observed, expected) = state['fail']
+    acc.fail(case, clause, features, observed, expected)
+    return state['n'], _bucket(clause, features)
